@@ -204,6 +204,7 @@ package keeper
 //@   && minterParamsValid(decSnap("types.Params", $kvVal[storeOf(k.storeKey)][mpKey()]))
 //@   && paramsContainSeq(decSnap("types.Params", $kvVal[storeOf(k.storeKey)][mpKey()]), $minterState.SequenceId)
 //@ func (k Keeper) SetParams(ctx, p) (err)
+//@   panic_requires seqIdsInRange(p.Minters)
 //@   modifies $kvHas, $kvVal, elems(p.Minters)
 //@   ensures err != nil ==> kvUnchanged()
 //@   ensures err == nil ==> minterParamsValid(snap(p)) && $kvHas[storeOf(k.storeKey)][mpKey()] && $kvVal[storeOf(k.storeKey)][mpKey()] == enc(p)
@@ -211,6 +212,7 @@ package keeper
 //@   ensures kvOnlyChanged(storeOf(k.storeKey), mpKey())
 //@   prop C13 C20
 //@ func (k Keeper) UpdateParams(ctx, authority, params) (err)
+//@   panic_requires seqIdsInRange(params.Minters)
 //@   modifies $kvHas, $kvVal, elems(params.Minters)
 //@   ensures authority != k.authority ==> err != nil
 //@   ensures err != nil ==> kvUnchanged()
@@ -219,6 +221,7 @@ package keeper
 //@   prop C13 C20
 //@ func (k msgServer) UpdateMintersParams(goCtx, msg) (resp, err)
 //@   requires msg != nil
+//@   panic_requires seqIdsInRange(msg.Minters)
 //@   modifies $kvHas, $kvVal, elems(msg.Minters)
 //@   ensures msg.Authority != k.authority ==> err != nil
 //@   ensures err != nil ==> kvUnchanged()
@@ -227,6 +230,7 @@ package keeper
 //@   prop C13 C20
 //@ func (k msgServer) UpdateParams(goCtx, msg) (resp, err)
 //@   requires msg != nil
+//@   panic_requires seqIdsInRange(msg.Minters)
 //@   modifies $kvHas, $kvVal, elems(msg.Minters)
 //@   ensures msg.Authority != k.authority ==> err != nil
 //@   ensures err != nil ==> kvUnchanged()
